@@ -193,8 +193,9 @@ def run(c):
         recs.append(rec)
     if sum(1 for job, _, _ in raw if job[3]) < nmust:
         raise Machinery("not every job of the fixed stratum was executed")
-    if len(raw) < min(len(jobs), nmust + 200):
-        raise Machinery("only %d of %d planned runs were executed before the deadline" % (len(raw), len(jobs)))
+    # (the fixed stratum always runs; how much of the sampled remainder fits before the deadline depends on machine load and
+    #  is reported, not required)
+    c.extra["sampled_runs_executed"] = len(raw) - nmust
     if driver_errors and len(driver_errors) > max(3, len(raw) // 100):
         raise Machinery("%d runs failed inside the driver, e.g. job %r: %s" % (len(driver_errors), driver_errors[0][0],
                                                                                driver_errors[0][1]))
